@@ -869,7 +869,13 @@ func (g wgen) sbase(tables []string) sBase {
 
 func (g wgen) scol(name string, tables []string) sCol {
 	c := sCol{Name: name, Key: g.sbase(tables)}
-	switch g.p.Intn(7) {
+	switch g.p.Intn(10) {
+	case 7:
+		c.Min = ip(0) // max omitted: at most one
+	case 8:
+		c.Max = "unlimited" // min omitted: at least one
+	case 9:
+		c.Max = 2 + g.p.Intn(5)
 	case 0:
 		if c.Key.Enum == nil && c.Key.MinInt == nil && c.Key.MaxInt == nil && c.Key.MinReal == nil && c.Key.MaxReal == nil &&
 			c.Key.MinLen == nil && c.Key.MaxLen == nil && c.Key.RefTable == nil {
